@@ -18,6 +18,8 @@
      fk                                  keep a second object: other = tx.clone()      sw   swap tx and the other object
      cf / as / ms                        tx.clone_from(&other) / tx = other.clone() / std::mem::swap(&mut tx, &mut other) (nothing without an other object)
      new.<version>.<locktime> / def      continue with Transaction::new(..) / Transaction::default()
+     mi.<k>.<vo|sq|id|us|sa|lk>.<val>.<s|a|i<j>>   get_input(k), ONE setter (vout / sequence / prev_tx_id / unlocking script / satoshis /
+                                         locking script), then set_input(k) / add_input / insert_input(j) with that derived input
      an.<k>.<sat|->.<lock|->             annotate input k (get_input, set_satoshis / set_locking_script, set_input); no input k: nothing
      pb.<bytes> / ph.<bytes>             continue with Transaction::from_bytes(bytes) / from_hex(hex of bytes) (any accepted encoding,
                                          e.g. non-minimal compact sizes)
@@ -51,7 +53,8 @@ Inductive xop :=
 | XSign (f idx : N) (sub : list bit) (v : N)
 | XIns (l : list txin) | XOuts (l : list txout) | XHashIn (f : N) | XGetOutpoints
 | XFork | XSwap | XCloneFrom | XNew (v lt : N) | XDefault | XReparse (kind : N) | XParse (b : bytes)
-| XAnn (k : N) (sat : option N) (lock : option (list bit)).
+| XAnn (k : N) (sat : option N) (lock : option (list bit))
+| XMod (k : N) (m : txin -> txin) (dst : N) (j : N).          (* dst 0 set_input(k), 1 add_input, 2 insert_input(j) *)
 
 Definition parse_in (txid vo scr sq : string) : option txin :=
   match expand txid, N_of_dec vo, expand scr, N_of_dec sq with
@@ -103,6 +106,37 @@ Definition parse_op (s : string) : option xop :=
   | ["fh"] => Some (XReparse 1)
   | ["fj"] => Some (XReparse 2)
   | ["fc"] => Some (XReparse 3)
+  | ["mi"; k; fld; val; dst] =>
+      let m : option (txin -> txin) :=
+        match fld with
+        | "vo" => option_map (fun v i => mk_txin (prev_tx_id i) v (unlocking i) (sequence i) (locking i) (satoshis i))
+                             (match N_of_dec val with Some v => if (v <? 4294967296)%N then Some v else None | None => None end)
+        | "sq" => option_map (fun v i => mk_txin (prev_tx_id i) (vout i) (unlocking i) v (locking i) (satoshis i))
+                             (match N_of_dec val with Some v => if (v <? 4294967296)%N then Some v else None | None => None end)
+        | "sa" => option_map (fun v i => mk_txin (prev_tx_id i) (vout i) (unlocking i) (sequence i) (locking i) (Some v))
+                             (match N_of_dec val with Some v => if (v <=? 18446744073709551615)%N then Some v else None | None => None end)
+        | "id" => option_map (fun b i => mk_txin b (vout i) (unlocking i) (sequence i) (locking i) (satoshis i)) (expand val)
+        | "us" => match expand val with
+                  | Some b => match from_bytes b with
+                              | Ok sc => Some (fun i => mk_txin (prev_tx_id i) (vout i) sc (sequence i) (locking i) (satoshis i)) | _ => None end
+                  | None => None end
+        | "lk" => match expand val with
+                  | Some b => match from_bytes b with
+                              | Ok sc => Some (fun i => mk_txin (prev_tx_id i) (vout i) (unlocking i) (sequence i) (Some sc) (satoshis i)) | _ => None end
+                  | None => None end
+        | _ => None
+        end in
+      let d : option (N * N) :=
+        match dst with
+        | "s" => Some (0, 0)%N
+        | "a" => Some (1, 0)%N
+        | String "i" r => option_map (fun j => (2, j)%N) (N_of_dec r)
+        | _ => None
+        end in
+      match N_of_dec k, m, d with
+      | Some kn, Some f, Some (dn, j) => Some (XMod kn f dn j)
+      | _, _, _ => None
+      end
   | ["an"; k; sat; lock] =>
       match N_of_dec k,
             (if String.eqb sat "-" then Some None else option_map Some (N_of_dec sat)),
@@ -162,6 +196,16 @@ Definition to_op (s : state) (x : xop) : op :=
   | XOuts l => AddOutputs l
   | XHashIn f => HashInputsOp f
   | XGetOutpoints => GetOutpointsOp
+  | XMod k m dst j =>
+      if (k <? N.of_nat (length (inputs t)))%N then
+        match nth_error (inputs t) (N.to_nat k) with
+        | Some i =>
+            if (dst =? 0)%N then SetInput (N.to_nat k) (m i)
+            else if (dst =? 1)%N then AddInput (m i)
+            else InsertInput (clampN j (S (length (inputs t)))) (m i)
+        | None => CloneOp
+        end
+      else CloneOp
   | XAnn k sat lock =>
       if (k <? N.of_nat (length (inputs t)))%N then
         match nth_error (inputs t) (N.to_nat k) with
